@@ -16,8 +16,8 @@ accept = Fn(F, ["impl OsIpcOneShotServer", "accept"], ret="r", extra_params=TL,
     hints=[Hint("body:start", "proof { lemma_cloexec_bit(); }")],
     rules=[
         Rule("E7", r"let sockaddr: \*mut sockaddr = ptr::null_mut\(\);\s*let sockaddr_len: \*mut socklen_t = ptr::null_mut\(\);", "/* E7: NULL address out-parameters elided */",
-             "raw null pointers for accept4's unused out-parameters", min_count=1),
-        Rule("B40", r"libc::accept4?\(self\.fd, sockaddr, sockaddr_len(?:, ([A-Za-z_0-9:| ]+))?\)", r"k_accept4(self.fd, 0 | \1, %s)" % LG,
+             "raw null pointers for accept4's unused out-parameters"),
+        Rule("B40", r"libc::accept4?\(\s*self\.fd,\s*(?:sockaddr|ptr::null_mut\(\)),\s*(?:sockaddr_len|ptr::null_mut\(\))(?:,\s*([A-Za-z_0-9:| ]+))?,?\s*\)", r"k_accept4(self.fd, 0 | \1, %s)" % LG,
              "accept4 stub over the descriptor ledger (flags kept)", min_count=1),
         AppendArg("B41", r"OsIpcReceiver::from_fd\(", LG, "ownership hand-over recorded in the ledger", min_count=1),
     ],
